@@ -196,7 +196,7 @@ class C13(Check):
                 "Pox.C13.barrier_after", "Pox.C13.errors_spec", "Pox.C13.replies_carry_xid", "Pox.C13.set_config_visible",
                 "Pox.C13.unhandled_type_fails",
                 "Pox.C13.history_answered_partial", "Pox.C13.history_events_partial", "Pox.C13.rejected_answered", "Pox.C13.runEv_msgs",
-                "Pox.C13.flow_mod_bad_action_defect", "Pox.C13.step_fit", "Pox.C13.allAnswered_index", "Pox.C13.history_barrier", "Pox.C13.step_cases", "Pox.C13.history_ident",
+                "Pox.C13.step_fit", "Pox.C13.allAnswered_index", "Pox.C13.history_barrier", "Pox.C13.step_cases", "Pox.C13.history_ident",
                 "Pox.C13.features_after_history", "Pox.C13.config_after_history"]
     anchors = [("pox/datapaths/switch.py", "SoftwareSwitchBase." + m) for m in (
                    "__init__", "rx_message", "send", "_rx_hello", "_rx_echo_request", "_rx_features_request", "_rx_flow_mod", "_rx_packet_out",
@@ -226,8 +226,8 @@ class C13(Check):
                   "of admissible histories (step_fit), and oversize_entry_fails shows it is needed. The data path is not modelled: its effect on counters/buffers is fed to the model as "
                   "observed snapshots (Event.traffic); the theorems hold for every snapshot. Abstractions: matches are {all-wildcard, in_port=k}; actions are (type, output port, length); "
                   "malformed bodies beyond the connection-level rejection are C10's. The model follows the REPAIRED code: D9, D10, D27, C13-1, C13-2 committed; C13-3 = "
-                  "fixes/C13-3_stats_reply_multipart.diff (a statistics body longer than a message is sent in parts). flow_mod_bad_action_defect + proposed finding C13-4: a flow_mod "
-                  "carrying an unsupported action type is installed silently.")
+                  "fixes/C13-3_stats_reply_multipart.diff (a statistics body longer than a message is sent in parts). C13-4 = fixes/C13-4_flow_mod_bad_action.diff (an ADD/MODIFY flow_mod carrying "
+                  "an action type without handler is refused with BAD_ACTION/BAD_TYPE, nothing installed; while finding C13-4 is open such histories are oracle-only).")
     trusted_base = ["model Model/SwitchReq.lean hand-written from pox/datapaths/switch.py (+ flow_table.py for the table summary); tied by the dispatch/class `decide` obligations and this correspondence run",
                     "harness/translate/dispatch_tables.py (reads the four handler tables and the class registries off a live SoftwareSwitch in a child process; ast reading of the constructor only as fallback)",
                     "harness/swnet.py byte-level node; the struct-based reply decoder in harness/c13.py"]
@@ -993,6 +993,14 @@ class C13(Check):
                     return None
                 fmc = [c for c in codes if c[0] == 3]
                 cmdname = ("add", "modify", "modify_strict", "delete", "delete_strict")[m["cmd"]]
+                if m["cmd"] <= 2 and any(not (0 <= a[0] <= 11) for a in m["acts"]):
+                    # OpenFlow 1.0 §5.4.2 (OFPET_BAD_ACTION): an action type the switch does not implement -> the flow_mod is refused:
+                    # one error, nothing installed, a named buffer not consumed.  (Should the flow_mod be refusable for another
+                    # reason as well, that FLOW_MOD_FAILED error is accepted instead.)
+                    alt, _ = copy.deepcopy(ctx["table"]).flow_mod(m)
+                    if codes == [(2, 0)] or (alt is not None and len(codes) == 1 and codes[0] in alt): return None
+                    return "flow_mod:unsupported-action:%s | action types %s, expected BAD_ACTION/BAD_TYPE, got %s" % (
+                        "installed-silently" if not codes else "wrong-error", [a[0] for a in m["acts"] if not (0 <= a[0] <= 11)], codes)
                 ok_codes, notify = ctx["table"].flow_mod(m)
                 name = lambda cs: "none" if not cs else "+".join("%d-%d" % c for c in sorted(cs))
                 if ok_codes is None:
@@ -1020,12 +1028,6 @@ class C13(Check):
                         return "%s:unknown-buffer:%s | buffer_id=%d, expected BAD_REQUEST/%s, got %s" % (
                             k, "silent" if not codes else "wrong-error", m["bid"], "BUFFER_EMPTY" if want[1] == 7 else "BUFFER_UNKNOWN", codes)
                     return None
-            if k == "flow_mod" and m["cmd"] <= 2 and unsupported and executed is not True and ok_codes is None:
-                # OpenFlow 1.0 §5.4.2 (OFPET_BAD_ACTION): a flow_mod with an action type the switch does not implement is refused
-                if codes != [(2, 0)]:
-                    return "flow_mod:unsupported-action:%s | action types %s, expected BAD_ACTION/BAD_TYPE, got %s" % (
-                        "installed-silently" if not codes else "wrong-error", [a[0] for a in unsupported], codes)
-                return None
             if executed is False and codes: return "%s:unexpected-error | %s" % (k, codes)
             if executed and unsupported and codes != [(2, 0)]:
                 return "%s:unsupported-action:%s | expected BAD_ACTION/BAD_TYPE got %s" % (k, "no-reply" if not codes else "wrong-error", codes)
